@@ -84,6 +84,13 @@ def family(gdim, tdim):
     add("sum_k I[0,k]*c[k]  (fixed partner index)", S(P(idx(I_t, 0, k), idx(c_t, k)), k))
     add("I[0,0]*f + I[0,1]*g", uflmodel.m_sum(P(idx(I_t, 0, 0), f), P(idx(I_t, 0, 1), g)))
     add("sum_k I[a,k]*(sum_a B[k,a])  (replacement index is bound inside)", S(P(idx(I_t, a, k), S(idx(Bm, k, a), a)), k))
+    # one summation index object contracted against identities with different partner indices in one expression
+    ck, Bk0 = idx(c_t, k), idx(Bm, k, 0)  # shared node objects (UFL shares structurally equal nodes through its caches)
+    add("sum_k I[0,k]*c[k] * sum_k I[1,k]*c[k]  (same index object k, shared operand c[k])", P(S(P(idx(I_t, 0, k), ck), k), S(P(idx(I_t, 1, k), ck), k)))
+    add("sum_k I[a,k]*c[k] * sum_k I[b,k]*c[k]  (same k, free partners a, b)", P(S(P(idx(I_t, a, k), ck), k), S(P(idx(I_t, b, k), ck), k)))
+    add("sum_k I[1,k]*B[k,0] - sum_k I[0,k]*B[k,0]", uflmodel.m_sum(S(P(idx(I_t, 1, k), Bk0), k), P(uflmodel.m_scalar(-1), S(P(idx(I_t, 0, k), Bk0), k))))
+    # the same for the Jacobian contraction: one index object k in two sums with different surviving indices
+    add("sum_k K[0,k]*J[k,b] * sum_k K[1,k]*J[k,b]... distinct partners", P(S(P(idx(K, 0, k), idx(J, k, 0)), k), S(P(idx(K, 1, k), idx(J, k, 0)), k)))
     add("sum_k I[k,k]*f  (trace of identity)", S(P(uflmodel.m_indexed(I_t, MI((k, k))), f), k))
     # reciprocals
     two, half = uflmodel.m_scalar(2), uflmodel.m_scalar(0.5)
@@ -116,8 +123,7 @@ def run(ctx) -> Report:
             H = PassHarness(ctx, f"{MOD}.{pname}", gdim=gdim, tdim=tdim)
             H.ip.instantiable |= {"IndexReplacer"}
             H.ip.overrides["extract_unique_domain"] = lambda e, expand_mesh_sequence=True: as_T(e).tags.get("domain")
-            if pname != "ReciprocalCanceller":
-                H.selfobj.attrs["_rules"] = {}
+            H.init()
             return H
 
         for desc, e in fam:
